@@ -210,6 +210,8 @@ pub fn run(ctx: &Ctx) -> Rep {
     let rows_rate_6 = ctx.pick(1, 16, 2);
     let rows_rate_7 = ctx.pick(1, 64, 8);
 
+    let perms6: Vec<[u8; 8]> = (0..drive::factorial(6)).map(|k| drive::nth_permutation(6, k)).collect();
+    let perms7: Vec<[u8; 8]> = (0..drive::factorial(7)).map(|k| drive::nth_permutation(7, k)).collect();
     // ---- A: all six-card subsets -------------------------------------------
     // the checked leg of the quick tier works on a seeded quarter of the hands (ranking has no arithmetic that
     // differs between the profiles today; the leg is there to catch a debug assertion or an overflow that a change adds)
@@ -236,6 +238,14 @@ pub fn run(ctx: &Ctx) -> Rep {
                 check6(st, &m, &p, expect, false);
                 st.x.orders += 1;
             }
+        }
+        if drive::max_suit_count(c) == 6 && !ctx.smoke() {
+            for (k, p) in perms6.iter().enumerate() {
+                let a = [c[p[0] as usize], c[p[1] as usize], c[p[2] as usize], c[p[3] as usize], c[p[4] as usize], c[p[5] as usize]];
+                check6(st, &m, &a, expect, k % 16 == 0);
+            }
+            st.x.orders += perms6.len() as u64;
+            st.rep.add("single_suit_hands_ranked_in_every_slot_order", 1);
         }
         if expect <= 166 && !ctx.smoke() {
             let mut rng = Rng::new(seed, drive::hand_code(c) ^ 0x6565);
@@ -291,6 +301,16 @@ pub fn run(ctx: &Ctx) -> Rep {
                 check7(st, &m, &p, expect, false);
                 st.x.orders += 1;
             }
+        }
+        // the 6,864 seven-card hands of a single suit in all 5,040 slot orders (every 16th through all four entry
+        // points): a flush path with an ordering precondition is only ever wrong on these, in a handful of orders
+        if drive::max_suit_count(c) == 7 && !ctx.smoke() {
+            for (k, p) in perms7.iter().enumerate() {
+                let a = [c[p[0] as usize], c[p[1] as usize], c[p[2] as usize], c[p[3] as usize], c[p[4] as usize], c[p[5] as usize], c[p[6] as usize]];
+                check7(st, &m, &a, expect, k % 16 == 0);
+            }
+            st.x.orders += perms7.len() as u64;
+            st.rep.add("single_suit_hands_ranked_in_every_slot_order", 1);
         }
         // rare categories (straight flush, quads: 266,432 hands) get 32 extra seeded slot orders each: an
         // order-dependent shortcut taken only for such hands is then met by every one of them
@@ -401,8 +421,6 @@ pub fn run(ctx: &Ctx) -> Rep {
     // For every one of the 7462 classes, one six-card and one seven-card hand containing it (its
     // representative plus seeded extra cards) in ALL 720 / 5040 slot orders: closes the slot-order
     // dimension on a set of hands that covers every class as best or near-best hand.
-    let perms6: Vec<[u8; 8]> = (0..drive::factorial(6)).map(|k| drive::nth_permutation(6, k)).collect();
-    let perms7: Vec<[u8; 8]> = (0..drive::factorial(7)).map(|k| drive::nth_permutation(7, k)).collect();
     let std_ = par_run(ctx, classes.len(), mk, |st, ci| {
         let o = classes[ci];
         let base = m.representative[o];
